@@ -382,7 +382,8 @@ type Tap struct {
 	Inner    stun.ClientAgent
 	Before   func(op string, id [12]byte) // called before delegating
 	After    func(op string, id [12]byte, err error)
-	CloseErr error // returned from Close (after delegating) when set
+	CloseErr error                   // returned from Close (after delegating) when set
+	Refuse   func(id [12]byte) error // when set and non-nil for id: Start fails with it and nothing is registered (a custom agent may refuse)
 	mu       sync.Mutex
 	Calls    map[string]int
 }
@@ -428,7 +429,15 @@ func (t *Tap) Close() error {
 
 // Start implements stun.ClientAgent.
 func (t *Tap) Start(id [stun.TransactionIDSize]byte, deadline time.Time) error {
-	return t.around("start", id, func() error { return t.Inner.Start(id, deadline) })
+	return t.around("start", id, func() error {
+		if t.Refuse != nil {
+			if err := t.Refuse(id); err != nil {
+				return err
+			}
+		}
+
+		return t.Inner.Start(id, deadline)
+	})
 }
 
 // Stop implements stun.ClientAgent.
